@@ -156,7 +156,7 @@ def typestate(ctx):
                         if st == "built":
                             bad = (c, "manifest digest refreshed before the severable digests")
                         state[r] = "dig"
-                    elif m in ("to_cbor", "get_manifest_digest"):
+                    elif m in ("to_cbor", "get_manifest_digest", "get_digest"):
                         any_sink = True
                         if st != "dig":
                             bad = (c, f"{m}() reached in state '{st}' (needs update_severable_digests then update_digest)")
